@@ -26,6 +26,8 @@ var LibModels = []string{
 	"strings.TrimSpace: result is a sub-slice of the argument (same backing array, offsets within bounds); trimmed prefix/suffix bytes satisfy isTrimByte (uninterpreted superset of ASCII space); result does not start/end with an ASCII space byte; whole characters are trimmed (for valid UTF-8 input the result starts and ends on character boundaries)",
 	"strings.ToUpper/ToLower: length-preserving for ASCII input; ASCII letters mapped exactly, other ASCII bytes unchanged (non-ASCII: uninterpreted)",
 	"sort.Ints: same length, ascending, same set of values, distinctness preserved (consequences of 'sorted permutation'); sort.Strings/Float64s/Slice/SliceStable: same length, a permutation (every sum-shaped fold over the whole slice is preserved), otherwise unconstrained",
+	"strings/bytes Index, IndexByte, LastIndex(Byte): result is -1 or a position where the separator fits; for a one-byte separator the byte at the result is that byte and no earlier (later, for Last*) position holds it, and -1 means no position holds it; Contains/HasPrefix/HasSuffix: length consequences, exact for literal prefixes/suffixes of up to 8 bytes",
+	"io.ReadFull/ReadAtLeast: 0 <= n <= len(buf), err == nil exactly when the window was filled (ReadFull); the window's bytes become unknown",
 	"other strings/strconv/unicode/utf8/math/path functions: uninterpreted deterministic functions of their arguments",
 }
 
@@ -348,6 +350,9 @@ func (x *Exec) libCall(key string, fn *types.Func, call *ast.CallExpr, recvExpr 
 				out = append(out, r)
 			}
 			x.W.Note("library call as uninterpreted function: " + key)
+			if !x.termMode && x.noFacts == 0 {
+				x.indexFacts(key, as, out, env)
+			}
 			return out, true
 		}
 	}
@@ -429,4 +434,79 @@ func (x *Exec) overwriteWindow(dstExpr ast.Expr, dst Term, env *Env) {
 			And(Cmp("<=", IntLit(0), x.W.SeqAt(c, qj)), Cmp("<=", x.W.SeqAt(c, qj), IntLit(255))).S, x.W.SeqAt(c, qj).S), SBool))
 	}
 	x.assign(root, c, env)
+}
+
+// indexFacts: consequences of the definitions of strings.Index / IndexByte / LastIndex / Contains / HasPrefix /
+// HasSuffix (and the bytes versions) attached to their uninterpreted results.
+func (x *Exec) indexFacts(key string, as []Term, out []Term, env *Env) {
+	name := key[strings.Index(key, ".")+1:]
+	if !(strings.HasPrefix(key, "strings.") || strings.HasPrefix(key, "bytes.")) || len(as) != 2 || len(out) != 1 {
+		return
+	}
+	s, sep := as[0], as[1]
+	if !x.W.IsSeq(s.Sort) {
+		return
+	}
+	r := out[0]
+	sl := x.W.SeqLen(s)
+	var sepLen Term
+	oneByte := false
+	var sepByte Term
+	if x.W.IsSeq(sep.Sort) {
+		sepLen = x.W.SeqLen(sep)
+		if n, ok := litLen(x.W, sep); ok && n == 1 {
+			oneByte = true
+			sepByte = x.W.SeqAt(sep, IntLit(0))
+		}
+	} else if sep.Sort == SInt && (name == "IndexByte" || name == "LastIndexByte") {
+		sepLen = IntLit(1)
+		oneByte = true
+		sepByte = sep
+	} else {
+		return
+	}
+	x.W.nfresh++
+	q := fmt.Sprintf("q!%d", x.W.nfresh)
+	qi := T(q, SInt)
+	forall := func(body Term, pat Term) Term {
+		return T(fmt.Sprintf("(forall ((%s Int)) (! %s :pattern (%s)))", q, body.S, pat.S), SBool)
+	}
+	switch name {
+	case "Index", "IndexByte", "LastIndex", "LastIndexByte":
+		x.W.AddFact(env.pc, Or(Eq(r, IntLit(-1)), And(Cmp(">=", r, IntLit(0)), Cmp("<=", Arith("+", r, sepLen), sl))))
+		if oneByte {
+			x.W.AddFact(env.pc, Implies(Cmp(">=", r, IntLit(0)), Eq(x.W.SeqAt(s, r), sepByte)))
+			inS := And(Cmp("<=", IntLit(0), qi), Cmp("<", qi, sl))
+			if strings.HasPrefix(name, "Last") {
+				x.W.AddFact(env.pc, forall(Implies(And(inS, Cmp(">", qi, r)), Not(Eq(x.W.SeqAt(s, qi), sepByte))), x.W.SeqAt(s, qi)))
+			} else {
+				x.W.AddFact(env.pc, forall(Implies(And(inS, Or(Eq(r, IntLit(-1)), Cmp("<", qi, r))), Not(Eq(x.W.SeqAt(s, qi), sepByte))), x.W.SeqAt(s, qi)))
+			}
+		}
+	case "Contains":
+		if oneByte && r.Sort == SBool {
+			inS := And(Cmp("<=", IntLit(0), qi), Cmp("<", qi, sl))
+			x.W.AddFact(env.pc, Implies(Not(r), forall(Implies(inS, Not(Eq(x.W.SeqAt(s, qi), sepByte))), x.W.SeqAt(s, qi))))
+			x.W.AddFact(env.pc, Implies(r, Cmp(">=", sl, IntLit(1))))
+		} else if r.Sort == SBool {
+			x.W.AddFact(env.pc, Implies(r, Cmp(">=", sl, sepLen)))
+		}
+	case "HasPrefix", "HasSuffix":
+		if r.Sort == SBool {
+			x.W.AddFact(env.pc, Implies(r, Cmp(">=", sl, sepLen)))
+			if n, ok := litLen(x.W, sep); ok && n <= 8 {
+				var eqs []Term
+				for j := 0; j < n; j++ {
+					var idx Term
+					if name == "HasPrefix" {
+						idx = IntLit(int64(j))
+					} else {
+						idx = Arith("+", Arith("-", sl, IntLit(int64(n))), IntLit(int64(j)))
+					}
+					eqs = append(eqs, Eq(x.W.SeqAt(s, idx), x.W.SeqAt(sep, IntLit(int64(j)))))
+				}
+				x.W.AddFact(env.pc, Eq(r, And(append([]Term{Cmp(">=", sl, IntLit(int64(n)))}, eqs...)...)))
+			}
+		}
+	}
 }
